@@ -192,9 +192,14 @@ fn bs(neg: bool) -> BSign {
     }
 }
 
-/// to_f32 / to_f64 of an integer of exactly N words
-pub fn to_float<const N: usize>(s: Sign, f64_: bool) {
-    let a = any_mag::<N>();
+/// to_f32 / to_f64 of an integer of exactly N words. `top`: 0 = every word symbolic; otherwise the most
+/// significant word is this literal (the bit length - and with it the shift that extracts the leading
+/// bits - is then a constant; for >= 3 words a symbolic bit length makes CBMC run out of time)
+pub fn to_float<const N: usize>(s: Sign, f64_: bool, top: Word) {
+    let mut a = any_mag::<N>();
+    if top != 0 && N > 0 {
+        a[N - 1] = top;
+    }
     let s = if N == 0 { POS } else { s };
     let neg = s == NEG;
     let (m, e) = top_sticky(&a);
@@ -269,8 +274,11 @@ pub fn from_f32(elo: u32, ehi: u32, neg: bool, to_u: bool) {
 }
 
 /// TryFrom<UBig/IBig> for f32/f64: Ok exactly when the integer is representable, value exact
-pub fn int_to_float_exact<const N: usize>(s: Sign, f64_: bool) {
-    let a = any_mag::<N>();
+pub fn int_to_float_exact<const N: usize>(s: Sign, f64_: bool, top: Word) {
+    let mut a = any_mag::<N>();
+    if top != 0 && N > 0 {
+        a[N - 1] = top;
+    }
     let s = if N == 0 { POS } else { s };
     let neg = s == NEG;
     let (m, e) = top_sticky(&a);
